@@ -1,4 +1,4 @@
-\* U1 of C08 (quick): DAGs of at most 2 operation nodes, all 52 kinds of FATypes!OpKinds,
+\* U1 of C08 (thorough): DAGs of at most 2 operation nodes, all 52 kinds of FATypes!OpKinds,
 \* leaf types FATypes!LeafTypes (5 symbol dtypes + integer / unsized float / unsized complex / boolean)
 SPECIFICATION Spec
 CONSTANTS
